@@ -29,6 +29,31 @@ LEAN = dict(modules=["MetadorModel.Props.C05"],
                                                                'merge_refused_with_stub', 'merge_refused_when_writable', 'merge_allowed_iff']]
             + ["MetadorModel.Follow." + n for n in ['invLast_transfer', 'follow_same_view', 'view_fold_over', 'invB_sound']],
             drivers=["drv_mrg"])
+# translated tie (harness/translate_c05.py): `merge_files` (both classes), `_fixes_after_merge`, and `commit_patch` (which
+# the `with` block of `merge_files` runs on the target) are regenerated from the source on every run
+LEAN["modules"] += ["MetadorModel.Bridge.MergeFnsTree", "MetadorModel.Bridge.MergeFnsCommit", "MetadorModel.Bridge.MergeFns"]
+LEAN["theorems"] += ["MetadorModel.Bridge.MergeFns." + n for n in [
+    'flatMap_blocks', 'listing_blocks', 'mergeFold_eq',
+    'gen_manifest', 'gen_fresh_manifest', 'gen_commit_patch_ok', 'gen_commit_patch_refused',
+    'gen_merge_files_mf', 'gen_merge_refused', 'gen_stub_merge_refused', 'gen_merge_loops',
+    'gen_merge_files_plain', 'gen_merge_files_mfcls', 'gen_merge_files_ok', 'gen_merged_ub', 'gen_merge_files_replayable']]
+
+
+def translate(ctx):
+    """regenerate Gen/MergeFns.lean from the current source (`IH5Record.merge_files`, `_fixes_after_merge`,
+    `IH5MFRecord.merge_files`, `_fixes_after_merge`, `manifest`, `_fresh_manifest`, `commit_patch`, `create_stub`,
+    `init_stub_skeleton`, `init_stub_base`); the bridge modules prove it equal to Model/Merge.lean. Shared with C10."""
+    from .. import translate_c05
+    ctx.trusted.append("harness/translate_c05.py (Python ast -> Lean) for merge_files / _fixes_after_merge / commit_patch / "
+                       "create_stub / init_stub_skeleton / init_stub_base with its value dictionary lean/MetadorModel/Py/MergePy.lean; "
+                       "bridge theorems (Bridge/MergeFns*.lean) re-checked on every run")
+    try:
+        return translate_c05.write(lean)
+    except translate_c05.TranslateError:
+        raise  # what could be translated has been written; the bridge modules of the rest fail to build
+    except Exception as e:  # noqa: BLE001
+        translate_c05.write_stub(lean, "%s: %s" % (type(e).__name__, e))
+        raise
 
 
 def _hashes(d):
